@@ -86,6 +86,9 @@ class V(object):
     def __getitem__(self, k):
         return V()
 
+    def __setitem__(self, k, value):
+        pass
+
     __iter__ = None     # not iterable (the __getitem__ fallback would never stop)
 
     def __bool__(self):
